@@ -292,7 +292,7 @@ func hostile(out string) {
 			if c.spell {
 				w.Emit(evSpell{"spell", hx.FromString(c.text), c.lines})
 			}
-			cfg := zg.Cfg{DefTTL: -1, Origin: zg.NameOpt{Set: true, N: labs("example")}, IncAllowed: c.allowed, Files: c.afiles}
+			cfg := zg.Cfg{DefTTL: -1, Origin: zg.NameOpt{Set: true, N: labs("example")}, IncAllowed: c.allowed, File: hx.FromString("db"), Files: c.afiles}
 			w.Emit(evStart{"start", cfg})
 			// attribution: the first line owns what was returned before "after"; an error belongs to the first line
 			// unless records of later lines were seen (position-based attribution is `record' mode's job)
